@@ -207,7 +207,6 @@ def models_(ctx):
     if not q:
         ctx.tlc_mc("Dns", "MC_DnsParse.tla", "MC_DnsParse_asfound_safe.cfg", expect="Safe", coverage=False, env=TLC_ENV)
         ctx.tlc_mc("Dns", "MC_DnsLookup.tla", "MC_DnsLookup_thorough.cfg", coverage=False, timeout=2400)
-        ctx.tlc_mc("Dns", "MC_DnsLookup.tla", "MC_DnsLookup_thorough5.cfg", coverage=False, timeout=2400)
 
 
 def run(ctx):
